@@ -791,8 +791,17 @@ def c13(ctx):
                 read = (po.stream_types.physical_type, po.stream_types.logical_type, po.lookup_preset.max_names, po.lookup_preset.max_prefixes,
                         po.lookup_preset.max_datatypes, po.params.stream_name, po.params.generalized_statements, po.params.rdf_star,
                         po.params.version, po.params.delimited)
+                want_flow = None
+                if cfg.flow is not None:
+                    # the flow object as the caller holds it, before any stream has seen it: the logical type it was made with
+                    try:
+                        want_flow = core.make_options(cfg).flow.logical_type
+                    except Exception:  # noqa: BLE001
+                        want_flow = None
                 if cfg.logical != 0 and flow_logical is not None and cfg.flow is None and flow_logical != cfg.logical:
                     pv = f"the stream was requested with logical type {cfg.logical} but is written (and read) as {flow_logical}"
+                elif want_flow is not None and po.stream_types.logical_type != want_flow:
+                    pv = f"the caller passed a flow object of logical type {want_flow}; the header of the stream says {po.stream_types.logical_type}"
                 elif wrote != read:
                     pv = f"options written {wrote} but the reader is told {read}"
                 else:
